@@ -119,9 +119,10 @@ def finish(out, level="model_checking", assumptions=None, rule="", extra=None):
         cov.update(extra)
     ev = {"property_id": out.prop, "tier": out.tier, "seed": seed(), "level": level, "coverage": cov,
           "assumptions": assumptions or [], "wall_s": round(time.time() - out.t0, 2), "violations": len(real)}
-    os.makedirs(EVIDENCE_DIR, exist_ok=True)
-    with open(os.path.join(EVIDENCE_DIR, "%s.json" % out.prop), "w") as fh:
-        json.dump(ev, fh, indent=1, sort_keys=True, default=str)
+    if not os.environ.get("VERIF_NO_EVIDENCE"):        # developer sweeps must not overwrite the committed evidence
+        os.makedirs(EVIDENCE_DIR, exist_ok=True)
+        with open(os.path.join(EVIDENCE_DIR, "%s.json" % out.prop), "w") as fh:
+            json.dump(ev, fh, indent=1, sort_keys=True, default=str)
     for l in lines:
         print(l)
     print("%s %s: %s  states=%d traces=%d evaluations=%d wall=%.1fs" % (
